@@ -15,7 +15,7 @@ WithIdx(s, o) == [s EXCEPT !.neg = o[1], !.fwd = o[2]]
 
 \* depth-1 stacks over leaves and nil slots
 S1 == {WithIdx(TrStk(k, es), o) : k \in {"AND"}, es \in SeqsUpTo({L, TrNil}, Width), o \in {<<FALSE, FALSE>>, <<TRUE, TRUE>>}}
-S1small == {WithIdx(TrStk("OR", es), o) : es \in {<<>>, <<L>>, <<L, TrNil>>, <<TrNil, L>>}, o \in {<<FALSE, FALSE>>, <<TRUE, TRUE>>}}
+S1small == {[WithIdx(TrStk("OR", es), o) EXCEPT !.er = (o[1])] : es \in {<<>>, <<L>>, <<L, TrNil>>, <<TrNil, L>>}, o \in {<<FALSE, FALSE>>, <<TRUE, TRUE>>}}
 
 \* element alternatives of a depth-2 stack
 A2 == {L, TrNil, TrCnd(<<"k">>, "Eq", L)} \cup S1small \cup {TrCnd(<<"k">>, "Eq", s) : s \in S1small}
@@ -23,7 +23,7 @@ A2 == {L, TrNil, TrCnd(<<"k">>, "Eq", L)} \cup S1small \cup {TrCnd(<<"k">>, "Eq"
 S2 == {[WithIdx(TrStk("AND", es), o) EXCEPT !.nn = b] : es \in SeqsUpTo(A2, Width), o \in IdxOpts, b \in BOOLEAN}
 
 \* depth 3: a depth-2 stack (or a Condition holding one) among leaves
-S2small == {[WithIdx(TrStk("LIST", <<a, b>>), o) EXCEPT !.nn = (o[1])] : a \in {L, TrNil}, b \in S1small \cup {TrCnd(<<"k">>, "Ge", s) : s \in S1small}, o \in {<<FALSE, FALSE>>, <<TRUE, TRUE>>}}
+S2small == {[WithIdx(TrStk("LIST", <<a, b>>), o) EXCEPT !.nn = (o[1]), !.er = (o[2])] : a \in {L, TrNil}, b \in S1small \cup {TrCnd(<<"k">>, "Ge", s) : s \in S1small}, o \in {<<FALSE, FALSE>>, <<TRUE, TRUE>>}}
 S3 == {WithIdx(TrStk("AND", <<a, b>>), o) : a \in {L, TrNil} \cup S1small, b \in S2small \cup {TrCnd(<<"c">>, "Eq", s) : s \in S2small}, o \in {<<FALSE, FALSE>>, <<TRUE, TRUE>>}}
 
 Cases == CASE FAMILY = "d1" -> S1 [] FAMILY = "d2" -> S2 [] FAMILY = "d3" -> S3
